@@ -1,5 +1,6 @@
 """Spec helper functions visible in contract expressions."""
 import z3
+from .kinds import safe_forall
 from .kinds import (V, NONE, VTuple, VList, VFunc, Kind, INT, BOOL, STR, REAL, Ref, Seq, SetK, Map, Arr, Opt,
                     RefSort, NULL, const, concrete, fresh, fresh_name)
 from .engine import SpecError
@@ -22,11 +23,11 @@ def wf_map_term(m):
     at = lambda q: ks.at(keys, q)
     return z3.And(
         n >= 0,
-        z3.ForAll([i], z3.Implies(z3.And(0 <= i, i < n), z3.Select(dom, at(i))), patterns=[at(i)]),
-        z3.ForAll([x], z3.Implies(z3.Select(dom, x), z3.And(0 <= idx(m.term, x), idx(m.term, x) < n,
+        safe_forall([i], z3.Implies(z3.And(0 <= i, i < n), z3.Select(dom, at(i))), patterns=[at(i)]),
+        safe_forall([x], z3.Implies(z3.Select(dom, x), z3.And(0 <= idx(m.term, x), idx(m.term, x) < n,
                                                             at(idx(m.term, x)) == x)),
                   patterns=[z3.Select(dom, x)]),
-        z3.ForAll([i, j], z3.Implies(z3.And(0 <= i, i < j, j < n), at(i) != at(j)), patterns=[z3.MultiPattern(at(i), at(j))]),
+        safe_forall([i, j], z3.Implies(z3.And(0 <= i, i < j, j < n), at(i) != at(j)), patterns=[z3.MultiPattern(at(i), at(j))]),
     )
 
 
